@@ -12,10 +12,12 @@ def foldVal (op : BinOp) (b : Base) (l r : PyVal) : Except PyErr PyVal := eval (
 type, or returned unchanged by `to_public`) **iff** all its operands are literals — an operation
 with at least one non-literal operand is never folded, a literal-only one always is. -/
 def foldedIffLiteral (r : Row) : Bool :=
-  match r.2.2 with
-  | [.ok t folded name _] =>
-      if name = "alias" then true
-      else (folded == r.2.1.all (·.mode = .const)) && (!folded || (name = "Literal" && t.mode = .const))
-  | _ => true
+  -- every outcome observed for the cell (the provenance classes include literals of other *values*: 0 / False, 1 / True, 2)
+  r.2.2.all fun o =>
+    match o with
+    | .ok t folded name _ =>
+        if name = "alias" then true
+        else (folded == r.2.1.all (·.mode = .const)) && (!folded || (name = "Literal" && t.mode = .const))
+    | _ => true
 
 end NadaVerif.C06
